@@ -297,6 +297,30 @@ def mask_rules(repo):
         out.append(violation("MASK", fi, role, "the tile containing the locus end is not masked (end = locus.end // in_window)", fi.node))
     else:
         out.append(unrecognised("MASK", fi, role, str([x for x in src if "locus." in x])))
+    # the mask is built from EVERY input locus: `loci` reaches the mask loop as the caller's table (or the file read from it), never as a
+    # filtered subset - a locus that is dropped from the matching for another reason must still be excluded from the background
+    role_all = "the exclusion mask is built from every input locus (the table is not filtered before the mask loop)"
+    mloops = [n for n in walk_no_nested(fi.node) if isinstance(n, ast.For) and any(isinstance(x, ast.Name) and x.id == "loci" for x in ast.walk(n.iter))
+              and any("mask[" in unparse(s_) for s_ in n.body)]
+    if len(mloops) != 1:
+        out.append(unrecognised("MASK", fi, role_all, "loop over `loci` that fills the mask not found"))
+    else:
+        from ..core import named
+        rebinds = [n for n in walk_no_nested(fi.node) if isinstance(n, ast.Assign) and any(isinstance(t, ast.Name) and t.id == "loci" for t in n.targets)
+                   and n.lineno < mloops[0].lineno]
+        filt = [n for n in rebinds if (isinstance(n.value, ast.Subscript) and isinstance(n.value.value, ast.Name) and n.value.value.id == "loci")
+                or (isinstance(n.value, ast.Call) and isinstance(n.value.func, ast.Attribute) and isinstance(n.value.func.value, ast.Name) and
+                    n.value.func.value.id == "loci" and n.value.func.attr in ("query", "drop", "dropna", "head", "tail", "sample", "drop_duplicates"))
+                or (isinstance(n.value, ast.Subscript) and isinstance(n.value.value, ast.Attribute) and n.value.value.attr in ("loc", "iloc") and
+                    isinstance(n.value.value.value, ast.Name) and n.value.value.value.id == "loci")]
+        other = [n for n in rebinds if n not in filt and "read_csv" not in unparse(n.value)]
+        if filt:
+            out.append(named("MASK", fi, role_all, "`%s` (line %d) keeps a subset of the input loci before the mask is built: the tiles of the dropped loci "
+                             "can be returned as background" % (unparse(filt[0])[:60], filt[0].lineno), filt[0]))
+        elif other:
+            out.append(unrecognised("MASK", fi, role_all, "`loci` is rebound by `%s` before the mask loop" % unparse(other[0])[:60], other[0]))
+        else:
+            out.append(holds("MASK", fi, role_all, "mask loop iterates `%s`" % unparse(mloops[0].iter)[:50], mloops[0], nontrivial=False))
     return out
 
 
